@@ -577,8 +577,9 @@ EXPLANATION = (
     "R4: exact file lookup (C01.R3). R5: the subchannel branch indexes rf_data with the same row slice. R6: numpy's "
     'promotion table joined with the element types: which conversions are exact. R7: block-index entries only through '
     'int(). R8: every attribute _read stores is either loaded in the cache-miss branch keyed by the file name or never '
-    'read before it is stored in the same call (no query-history state).  Does NOT decide the split/merge relation or '
-    'bounds arithmetic.')
+    'read before it is stored in the same call (no query-history state).  R9: every variable component of a path given to'
+    ' glob.glob in the reader modules is wrapped in glob.escape (a directory named ch[1] is not a pattern). Does NOT '
+    'decide the split/merge relation or bounds arithmetic.')
 TECHNIQUE = ('Python ast; sibling comparison of the data and length pipelines (homomorphic image under len); CFG must-pass for guards; float-taint; promotion table')
 ASSUMPTIONS = ["numpy.promote_types table for float x integer types (documented)", "h5py dataset slicing returns rows [a, b)"]
 FILES = ["python/digital_rf/digital_rf_hdf5.py", "python/digital_rf/digital_metadata.py"]
